@@ -288,7 +288,7 @@ func (c *Ctx) installRvBuiltins(ev *spec.Eval) {
 	post := func(ev *spec.Eval, res ast.Expr) *rvPost {
 		s := c.rvStateOf(p)
 		if s.post == nil {
-			d := &ir.Den{T: c.IR, P: p, Env: s.env()}
+			d := c.den(p)
 			s.post = s.apply(d.Effects(ev.Eval(res).V))
 		}
 		return s.post
